@@ -1672,7 +1672,12 @@ where
                 && (self.status != ConnectionStatus::Disconnected || self.offline_publish)
             {
                 let store_packet = packet.clone().set_dup(true);
-                self.store.add(store_packet.try_into().unwrap()).unwrap();
+                // The id already carries a stored exchange: refuse, and leave that exchange
+                // (and its id) alone
+                if let Err(e) = self.store.add(store_packet.try_into().unwrap()) {
+                    events.push(GenericEvent::NotifyError(e));
+                    return events;
+                }
             } else {
                 release_packet_id_if_send_error = Some(packet_id);
             }
@@ -1757,11 +1762,19 @@ where
                         .remove_topic_alias_add_topic(topic_opt.unwrap())
                         .unwrap()
                         .set_dup(true);
-                    self.store.add(store_packet.try_into().unwrap()).unwrap();
+                    // The id already carries a stored exchange: refuse, and leave that
+                    // exchange (and its id) alone
+                    if let Err(e) = self.store.add(store_packet.try_into().unwrap()) {
+                        events.push(GenericEvent::NotifyError(e));
+                        return events;
+                    }
                 } else {
                     // Topic name is not empty, remove topic alias if present
                     let store_packet = packet.clone().remove_topic_alias().set_dup(true);
-                    self.store.add(store_packet.try_into().unwrap()).unwrap();
+                    if let Err(e) = self.store.add(store_packet.try_into().unwrap()) {
+                        events.push(GenericEvent::NotifyError(e));
+                        return events;
+                    }
                 }
             } else {
                 release_packet_id_if_send_error = Some(packet_id);
@@ -2013,7 +2026,11 @@ where
             return events;
         }
         if self.need_store {
-            self.store.add(packet.clone().try_into().unwrap()).unwrap();
+            // The id already carries a stored exchange: refuse, and leave that exchange alone
+            if let Err(e) = self.store.add(packet.clone().try_into().unwrap()) {
+                events.push(GenericEvent::NotifyError(e));
+                return events;
+            }
         }
 
         // The exchange awaits PUBCOMP whether the PUBREL goes out now or is queued for the resume
@@ -2050,7 +2067,11 @@ where
             return events;
         }
         if self.need_store {
-            self.store.add(packet.clone().try_into().unwrap()).unwrap();
+            // The id already carries a stored exchange: refuse, and leave that exchange alone
+            if let Err(e) = self.store.add(packet.clone().try_into().unwrap()) {
+                events.push(GenericEvent::NotifyError(e));
+                return events;
+            }
         }
 
         // The exchange awaits PUBCOMP whether the PUBREL goes out now or is queued for the resume
